@@ -15,7 +15,7 @@ EXTENDS Select, TLC, Json
 CONSTANTS MaxEnt,        \* entities per document, the feature included
           Profiles,      \* gap profiles per number of entities: [2..MaxEnt -> set of sequences of MaxEnt + 1 numbers]
           STags, OTags,  \* tag choices of scenarios / outlines
-          MaxTagged,     \* at most that many tagged entities per document: [2..MaxEnt -> Nat]
+          MaxTagged,     \* at most that many specials (tagged entities, heading-only tables) per document: [2..MaxEnt -> Nat]
           MaxList,       \* lines per list file
           ListPool,      \* list line pool
           Texts          \* branch texts for --name patterns
@@ -33,14 +33,21 @@ BodyOf(prof, i, k) == CASE k \in {"feature", "rule"}     -> prof[i + 1]
                         [] k \in {"scenario", "outline"} -> 1 + (prof[i + 1] % 2)
                         [] OTHER -> 0
 Choices(ks, prof, i) ==    \* items for position i + 1 (kind ks[i])
-   LET k == ks[i] IN
-   {Item(k, prof[i + 1], BodyOf(prof, i + 1, k), tg, nt) :
+   LET k == ks[i]
+       lastrow == k = "row" /\ (i = Len(ks) \/ ks[i + 1] # "row")
+   IN
+   {Item(k, prof[i + 1], IF et = 2 THEN 2 ELSE BodyOf(prof, i + 1, k), tg, nt, et) :
       tg \in (CASE k = "scenario" -> STags [] k = "outline" -> OTags [] OTHER -> {"none"}),
-      nt \in (IF k # "row" THEN {FALSE} ELSE IF ks[i - 1] = "outline" THEN {TRUE} ELSE {TRUE, FALSE})}
+      nt \in (IF k # "row" THEN {FALSE} ELSE IF ks[i - 1] = "outline" THEN {TRUE} ELSE {TRUE, FALSE}),
+      et \in (IF k # "row" THEN {0} ELSE {0, 1} \cup (IF lastrow THEN {2} ELSE {}))}
 RECURSIVE Ext(_,_,_)
-Ext(ks, prof, i) == IF i = 0 THEN {<<Item("feature", prof[1], BodyOf(prof, 1, "feature"), "none", FALSE)>>}
+Ext(ks, prof, i) == IF i = 0 THEN {<<Item("feature", prof[1], BodyOf(prof, 1, "feature"), "none", FALSE, 0)>>}
                     ELSE {Append(p, it) : p \in Ext(ks, prof, i - 1), it \in Choices(ks, prof, i)}
-LayoutsOf(ks, prof) == {x \in Ext(ks, prof, Len(ks)) : Cardinality({i \in DOMAIN x : x[i].tag # "none"}) <= MaxTagged[Len(x)]}
+\* a heading-only table in front needs a row that opens a table; specials (tagged entities + heading-only tables)
+\* are capped per document
+LayoutsOf(ks, prof) == {x \in Ext(ks, prof, Len(ks)) :
+   /\ \A i \in DOMAIN x : x[i].et = 1 => x[i].nt
+   /\ Cardinality({i \in DOMAIN x : x[i].tag # "none"}) + Cardinality({i \in DOMAIN x : x[i].et # 0}) <= MaxTagged[Len(x)]}
 
 \* ---------------------------------------------------------------- list files, name options
 ListCases == UNION {[1..n -> ListPool] : n \in 1..MaxList}
